@@ -678,7 +678,7 @@ func c17Resources(c *Ctx) {
 		if funcPkgPath(f) != modPath {
 			continue
 		}
-		for _, in := range findInstrs(f, StoresTo(sq)) {
+		for _, in := range findInstrsLocal(f, StoresTo(sq)) {
 			in := in
 			name := funcName(rootFn(f))
 			// every new queue is run
@@ -939,7 +939,7 @@ func c17WaitGroup(c *Ctx, w waitSite) (bool, string) {
 	}
 	adds, bad := 0, []string{}
 	for _, f := range c.P.ScopeFuncs() {
-		for _, in := range findInstrs(f, func(in ssa.Instruction) bool { return isWGCall(in, "Add", id) }) {
+		for _, in := range findInstrsLocal(f, func(in ssa.Instruction) bool { return isWGCall(in, "Add", id) }) {
 			adds++
 			if _, ok := wgAddExceptions[funcName(f)]; ok {
 				continue
@@ -1162,7 +1162,7 @@ func c17NoWaitUnderTransportMutex(c *Ctx) {
 		if funcPkgPath(f) != modPath {
 			continue
 		}
-		locks := findInstrs(f, OrIP(isLock("Lock"), isLock("RLock")))
+		locks := findInstrsLocal(f, OrIP(isLock("Lock"), isLock("RLock")))
 		if len(locks) == 0 {
 			continue
 		}
@@ -1183,7 +1183,7 @@ func c17NoWaitUnderTransportMutex(c *Ctx) {
 			}
 			return false
 		}
-		w := (&Cut{Fn: f, Start: OrIP(isLock("Lock"), isLock("RLock")), Target: target, Barrier: OrIP(isLock("Unlock"), isLock("RUnlock"))}).Run()
+		w := (&Cut{Fn: f, Start: OrIP(isLock("Lock"), isLock("RLock")), Target: target, Barrier: OrIP(isLock("Unlock"), isLock("RUnlock")), NoInline: true}).Run()
 		detail := "connection and server teardown need Transport.mutex (Remove, ReplaceWithClosed, closeServer): waiting for them with the mutex held deadlocks Transport.Close and every blocked Accept"
 		if w != nil {
 			detail += " — " + w.String(c.P)
